@@ -74,7 +74,7 @@ def c01(tier):
 def c02(tier):
     family = programs.all_programs() + programs.deep_programs()
     v, cov, te, wall = syscheck.run_family(
-        'C02', tier, family, ['NoUnderBuild', 'NoDupRun'], ['NoOverBuild'],
+        'C02', tier, family, ['NoUnderBuild', 'NoDupRun', 'RecordedDepsCover'], ['NoOverBuild'],
         {'rc', 'ran', 'edge', 'rows', 'row.changed', 'row.checked', 'row.stamp', 'row.failed', 'row.gen', 'order'},
         bounds(tier), sample_n=None if tier == 'thorough' else 40,
         note='MustRun reference over ghost history gh (content generations seen at the last successful build); '
@@ -84,7 +84,7 @@ def c02(tier):
 
 
 def c03(tier):
-    family = fam(['stamped1plain', 'stamped1always', 'stamped2plain', 'stamped_nested', 'stamp_toggle', 'stamped_deep', 'stamp_diamond', 'stamp_chain2', 'stamp_override', 'stamp_static'])
+    family = fam(['stamped1plain', 'stamped1always', 'stamped2plain', 'stamped_nested', 'stamp_toggle', 'stamped_deep', 'stamp_diamond', 'stamp_chain2', 'stamp_override', 'stamp_static', 'stamp_layers'])
     v, cov, te, wall = syscheck.run_family(
         'C03', tier, family, ['Fresh', 'NoUnderBuild', 'NoDupRun'], ['NoOverBuild'],
         {'rc', 'ran', 'file', 'row.csum', 'row.changed', 'row.checked'},
@@ -413,7 +413,7 @@ def pairs_part(pid, tier, verdict, cov, te, only=None):
         fam_ = [p for p in fam_ if p['name'] in ('pair_chain', 'pair_stamp', 'pair_lockfail', 'pair_query')]
     v, cov2, te2, wall2 = syscheck.run_family(
         pid, tier, fam_, ['ParFresh', 'ParFailPropagates', 'ParNoTmpLeft', 'ScriptMutex', 'HoldThroughRecord',
-                          'ScriptUnderLock', 'NotHung', 'NoPanic', 'Fresh'], [],
+                          'ScriptUnderLock', 'NotHung', 'NoPanic', 'Fresh', 'RecordedDepsCover'], [],
         None, (3, 4), sample_n=None if tier == 'thorough' else 16, jitter=True, repeat=6 if tier == 'thorough' else 2,
         min_cmds=1, verdict=verdict, subdir='pairs', required_actions=['InitRunA', 'EndPar'], sched=1,
         note='two invocations at once inside RedoSys')
